@@ -6,6 +6,7 @@ to the full / unfactorised tensor.
 import FfcxProofs.Lemmas.CodegenDiag
 import FfcxProofs.Lemmas.CodegenTensor
 import FfcxModel.LNodes.Scalars
+import FfcxProofs.C01Spec
 
 set_option linter.unusedSectionVars false
 
@@ -718,6 +719,441 @@ theorem tensor_equals_full1 (g : GroupDesc) (ms dims0 : List Nat) (hL : g.bmLens
   exact boxSum_flatten dims0 (fun i => blockLeafL x σ g.entityType g.aShape [sizeProd dims0]
     (dotStrides (strides ms) qvs) [i] k g.blocks fws)
 
+/-! ### ε-version: the factor tables reproduce the full tables only up to `ε` (floating-point tables) -/
+
+section Eps
+
+theorem rabs_add (a b : Rat) : (a + b).abs ≤ a.abs + b.abs := by
+  simp only [Rat.abs]; split <;> split <;> split <;> grind
+
+theorem rabs_mul (a b : Rat) : (a * b).abs = a.abs * b.abs := by
+  simp only [Rat.abs]
+  by_cases ha : 0 ≤ a <;> by_cases hb : 0 ≤ b
+  · simp [ha, hb, Rat.mul_nonneg ha hb]
+  · have hb' : 0 ≤ -b := by grind
+    have := Rat.mul_nonneg ha hb'
+    by_cases hab : 0 ≤ a * b
+    · simp [ha, hb, hab]; grind
+    · simp [ha, hb, hab]; grind
+  · have ha' : 0 ≤ -a := by grind
+    have := Rat.mul_nonneg ha' hb
+    by_cases hab : 0 ≤ a * b
+    · simp [ha, hb, hab]; grind
+    · simp [ha, hb, hab]; grind
+  · have ha' : 0 ≤ -a := by grind
+    have hb' : 0 ≤ -b := by grind
+    have := Rat.mul_nonneg ha' hb'
+    have h2 : 0 ≤ a * b := by grind
+    simp [ha, hb, h2]; grind
+
+theorem rmul_le_mul {a b c d : Rat} (h1 : a ≤ b) (h2 : c ≤ d) (ha : 0 ≤ a) (hd : 0 ≤ d) : a * c ≤ b * d := by
+  have s1 : a * c ≤ a * d := Rat.mul_le_mul_of_nonneg_left h2 ha
+  have s2 : a * d ≤ b * d := Rat.mul_le_mul_of_nonneg_right h1 hd
+  grind
+
+/-- `n` as a rational (avoids casts) -/
+def cnt : Nat → Rat
+  | 0 => 0
+  | n + 1 => cnt n + 1
+
+def boxCount : List Nat → Rat
+  | [] => 1
+  | n :: ns => cnt n * boxCount ns
+
+theorem cnt_nonneg : ∀ n, 0 ≤ cnt n
+  | 0 => by simp [cnt]
+  | n + 1 => by have := cnt_nonneg n; simp only [cnt]; grind
+
+/-- the product of two perturbed factors -/
+theorem prod_near (P0 P1 T0 T1 ε M : Rat) (h0 : (T0 - P0).abs ≤ ε) (h1 : (T1 - P1).abs ≤ ε)
+    (m0 : P0.abs ≤ M) (m1 : P1.abs ≤ M) : (P0 * P1 - T0 * T1).abs ≤ ε * (2 * M + ε) := by
+  have e : P0 * P1 - T0 * T1 = -((T0 - P0) * (T1 - P1)) + (-(P0 * (T1 - P1)) + -((T0 - P0) * P1)) := by grind
+  have hn : ∀ a : Rat, (-a).abs = a.abs := fun a => by simp only [Rat.abs]; split <;> split <;> grind
+  have hε : 0 ≤ ε := Rat.le_trans Rat.abs_nonneg h0
+  have hM : 0 ≤ M := Rat.le_trans Rat.abs_nonneg m0
+  have b1 : ((T0 - P0) * (T1 - P1)).abs ≤ ε * ε := by
+    rw [rabs_mul]; exact rmul_le_mul h0 h1 Rat.abs_nonneg hε
+  have b2 : (P0 * (T1 - P1)).abs ≤ M * ε := by
+    rw [rabs_mul]; exact rmul_le_mul m0 h1 Rat.abs_nonneg hε
+  have b3 : ((T0 - P0) * P1).abs ≤ ε * M := by
+    rw [rabs_mul]; exact rmul_le_mul h0 m1 Rat.abs_nonneg hM
+  rw [e]
+  have t1 := rabs_add (-((T0 - P0) * (T1 - P1))) (-(P0 * (T1 - P1)) + -((T0 - P0) * P1))
+  have t2 := rabs_add (-(P0 * (T1 - P1))) (-((T0 - P0) * P1))
+  rw [hn] at t1 t2
+  rw [hn] at t2
+  grind
+
+theorem isum_near (δ : Rat) : ∀ (n : Nat) (lo : Int) (f g : Int → Rat),
+    (∀ v, lo ≤ v → v < lo + n → (f v - g v).abs ≤ δ) → (isum lo n f - isum lo n g).abs ≤ cnt n * δ
+  | 0, _, _, _, _ => by simp only [isum, cnt, Rat.abs]; grind
+  | n + 1, lo, f, g, h => by
+    have h0 := h lo (by omega) (by omega)
+    have ih := isum_near δ n (lo + 1) f g (fun v h1 h2 => h v (by omega) (by omega))
+    have e : isum lo (n + 1) f - isum lo (n + 1) g = (f lo - g lo) + (isum (lo + 1) n f - isum (lo + 1) n g) := by
+      simp only [isum]; grind
+    rw [e]
+    have := rabs_add (f lo - g lo) (isum (lo + 1) n f - isum (lo + 1) n g)
+    simp only [cnt]
+    grind
+
+theorem boxSum_near (δ : Rat) : ∀ (ns : List Nat) (f g : List Int → Rat),
+    (∀ vs, InBox ns vs → (f vs - g vs).abs ≤ δ) → (boxSum ns f - boxSum ns g).abs ≤ boxCount ns * δ
+  | [], f, g, h => by
+    have := h [] trivial
+    simp only [boxSum, boxCount]; grind
+  | n :: ns, f, g, h => by
+    simp only [boxSum, boxCount]
+    have := isum_near (boxCount ns * δ) n 0 (fun v => boxSum ns (fun vs => f (v :: vs)))
+      (fun v => boxSum ns (fun vs => g (v :: vs)))
+      (fun v h1 h2 => boxSum_near δ ns _ _ (fun vs hvs => h (v :: vs) ⟨⟨h1, by omega⟩, hvs⟩))
+    grind
+
+/-- the table entries of one argument: the full table differs from the product of the factor tables by
+    at most `ε`, and the product is bounded by `M` -/
+def TPTablesε (σ : St Rat) (et : String) (qvs : List Int) (ms : List Nat) (ε M : Rat) (args : List ArgDesc) : Prop :=
+  ∀ a ∈ args, ∀ dvs, InBox (a.fs.map (·.2)) dvs →
+    (argVal σ et (dotStrides (strides ms) qvs) a (dotStrides (strides (a.fs.map (·.2))) dvs) -
+      tpArgVal σ et qvs a dvs).abs ≤ ε ∧ (tpArgVal σ et qvs a dvs).abs ≤ M
+
+theorem tpLeaf_near_blockLeaf (σ : St Rat) (et : String) (aShape lens ms : List Nat) (qvs vi vj : List Int)
+    (dims0 dims1 : List Nat) (k : Nat) (hi : InBox dims0 vi) (hj : InBox dims1 vj) (ε M Φ : Rat)
+    (hε : 0 ≤ ε) (hM : 0 ≤ M) (hΦ0 : 0 ≤ Φ) :
+    ∀ (bs : List BlockData) (fws : List Expr),
+      (∀ b ∈ bs, ∃ a0 a1, b.args = [a0, a1] ∧ a0.fs.map (·.2) = dims0 ∧ a1.fs.map (·.2) = dims1) →
+      (∀ b ∈ bs, TPTablesε σ et qvs ms ε M b.args) →
+      (∀ fw ∈ fws, (eval ratExtra σ fw).abs ≤ Φ) →
+      (tpLeafL ratExtra σ et aShape lens qvs [vi, vj] k bs fws -
+        blockLeafL ratExtra σ et aShape lens (dotStrides (strides ms) qvs)
+          [dotStrides (strides dims0) vi, dotStrides (strides dims1) vj] k bs fws).abs ≤
+        cnt bs.length * (Φ * (ε * (2 * M + ε)))
+  | [], _, _, _, _ => by simp only [tpLeafL, blockLeafL, List.length_nil, cnt, Rat.abs]; grind
+  | b :: bs, [], _, _, _ => by
+    simp only [tpLeafL, blockLeafL]
+    have h1 := cnt_nonneg (b :: bs).length
+    have h2 : 0 ≤ Φ * (ε * (2 * M + ε)) :=
+      Rat.mul_nonneg hΦ0 (Rat.mul_nonneg hε (by grind))
+    have := Rat.mul_nonneg h1 h2
+    simp only [Rat.abs]; grind
+  | b :: bs, fw :: fws, hsh, htp, hΦ => by
+    obtain ⟨a0, a1, hargs, e0, e1⟩ := hsh b (by simp)
+    obtain ⟨t0, m0⟩ := htp b (by simp) a0 (by simp [hargs]) vi (by rw [e0]; exact hi)
+    obtain ⟨t1, m1⟩ := htp b (by simp) a1 (by simp [hargs]) vj (by rw [e1]; exact hj)
+    rw [e0] at t0; rw [e1] at t1
+    have hc : aCoordsTP [a0, a1] lens [vi, vj] =
+        aCoords [a0, a1] lens [dotStrides (strides dims0) vi, dotStrides (strides dims1) vj] := by
+      rw [aCoordsTP_eq _ _ _ rfl]; simp [flatVals, e0, e1]
+    have ih := tpLeaf_near_blockLeaf σ et aShape lens ms qvs vi vj dims0 dims1 k hi hj ε M Φ hε hM hΦ0 bs fws
+      (fun b' hb' => hsh b' (by simp [hb'])) (fun b' hb' => htp b' (by simp [hb']))
+      (fun fw' hfw' => hΦ fw' (by simp [hfw']))
+    have hφ := hΦ fw (by simp)
+    have hp := prod_near _ _ _ _ ε M t0 t1 m0 m1
+    have hδ : 0 ≤ ε * (2 * M + ε) := Rat.mul_nonneg hε (by grind)
+    have hblock : (eval ratExtra σ fw * (tpArgVal σ et qvs a0 vi * (tpArgVal σ et qvs a1 vj * 1)) -
+        eval ratExtra σ fw * (argVal σ et (dotStrides (strides ms) qvs) a0 (dotStrides (strides dims0) vi) *
+          (argVal σ et (dotStrides (strides ms) qvs) a1 (dotStrides (strides dims1) vj) * 1))).abs ≤
+        Φ * (ε * (2 * M + ε)) := by
+      have e : eval ratExtra σ fw * (tpArgVal σ et qvs a0 vi * (tpArgVal σ et qvs a1 vj * 1)) -
+          eval ratExtra σ fw * (argVal σ et (dotStrides (strides ms) qvs) a0 (dotStrides (strides dims0) vi) *
+            (argVal σ et (dotStrides (strides ms) qvs) a1 (dotStrides (strides dims1) vj) * 1)) =
+          eval ratExtra σ fw * (tpArgVal σ et qvs a0 vi * tpArgVal σ et qvs a1 vj -
+            argVal σ et (dotStrides (strides ms) qvs) a0 (dotStrides (strides dims0) vi) *
+              argVal σ et (dotStrides (strides ms) qvs) a1 (dotStrides (strides dims1) vj)) := by grind
+      rw [e, rabs_mul]
+      exact rmul_le_mul hφ hp Rat.abs_nonneg hδ
+    have h2 : 0 ≤ Φ * (ε * (2 * M + ε)) := Rat.mul_nonneg hΦ0 hδ
+    simp only [tpLeafL, blockLeafL, hargs, hc, tpArgVals, argVals, prodR, List.length_cons, cnt]
+    split
+    · have tri := rabs_add
+        (eval ratExtra σ fw * (tpArgVal σ et qvs a0 vi * (tpArgVal σ et qvs a1 vj * 1)) -
+          eval ratExtra σ fw * (argVal σ et (dotStrides (strides ms) qvs) a0 (dotStrides (strides dims0) vi) *
+            (argVal σ et (dotStrides (strides ms) qvs) a1 (dotStrides (strides dims1) vj) * 1)))
+        (tpLeafL ratExtra σ et aShape lens qvs [vi, vj] k bs fws -
+          blockLeafL ratExtra σ et aShape lens (dotStrides (strides ms) qvs)
+            [dotStrides (strides dims0) vi, dotStrides (strides dims1) vj] k bs fws)
+      have e2 : ∀ (p t u v : Rat), p + u - (t + v) = (p - t) + (u - v) := by intro p t u v; grind
+      rw [e2]
+      grind
+    · have e3 : ∀ (u v : Rat), 0 + u - (0 + v) = u - v := by intro u v; grind
+      rw [e3]
+      grind
+
+/-- **tensor_near_full** (ε-version of `tensor_equals_full`, over `Rat`).  In real kernels the factor tables
+    reproduce the full table only up to rounding: if every full table entry differs from the product of the
+    factor-table entries by at most `ε` (`TPTablesε`; the harness measures `ε ≤ 7·10⁻¹⁶` on all real
+    tensor-factorised tables), the products are bounded by `M` and the `fw` values by `Φ`, then what the
+    sum-factorised nest adds to `A[k]` differs from what the unfactorised nest adds by at most
+    `(Π dims)·(#blocks)·Φ·ε·(2M + ε)`. -/
+theorem tensor_near_full (g : GroupDesc) (D : Nat) (ms dims0 dims1 : List Nat)
+    (hL : g.bmLens = [sizeProd dims0, sizeProd dims1]) (hd1 : dims1.length = D)
+    (hsh : ∀ b ∈ g.blocks, ∃ a0 a1, b.args = [a0, a1] ∧ a0.fs.map (·.2) = dims0 ∧ a1.fs.map (·.2) = dims1)
+    (fws : List Expr) (σ : St Rat) (qvs : List Int) (ε M Φ : Rat) (hε : 0 ≤ ε) (hM : 0 ≤ M) (hΦ0 : 0 ≤ Φ)
+    (htp : ∀ b ∈ g.blocks, TPTablesε σ g.entityType qvs ms ε M b.args)
+    (hΦ : ∀ fw ∈ fws, (eval ratExtra σ fw).abs ≤ Φ) (k : Nat) :
+    (tensorSum2 ratExtra g D dims0 dims1 fws σ qvs k -
+      blockSum ratExtra g fws σ (dotStrides (strides ms) qvs) k).abs ≤
+      boxCount dims1 * (boxCount dims0 * (cnt g.blocks.length * (Φ * (ε * (2 * M + ε))))) := by
+  simp only [tensorSum2, blockSum, hL, dofSum]
+  rw [boxSum_append]
+  -- the unfactorised sum over flat indices is a box sum over the factor indices
+  have h2 : ∀ vj : List Int, isum 0 (sizeProd dims0) (fun i =>
+        blockLeafL ratExtra σ g.entityType g.aShape [sizeProd dims0, sizeProd dims1] (dotStrides (strides ms) qvs)
+          [i, dotStrides (strides dims1) vj] k g.blocks fws) =
+      boxSum dims0 (fun vi =>
+        blockLeafL ratExtra σ g.entityType g.aShape [sizeProd dims0, sizeProd dims1] (dotStrides (strides ms) qvs)
+          [dotStrides (strides dims0) vi, dotStrides (strides dims1) vj] k g.blocks fws) := fun vj =>
+    (boxSum_flatten dims0 (fun i => blockLeafL ratExtra σ g.entityType g.aShape [sizeProd dims0, sizeProd dims1]
+      (dotStrides (strides ms) qvs) [i, dotStrides (strides dims1) vj] k g.blocks fws)).symm
+  have h3 := boxSum_flatten dims1 (fun j => isum 0 (sizeProd dims0) (fun i =>
+    blockLeafL ratExtra σ g.entityType g.aShape [sizeProd dims0, sizeProd dims1] (dotStrides (strides ms) qvs)
+      [i, j] k g.blocks fws))
+  rw [← h3]
+  simp only [h2]
+  apply boxSum_near
+  intro vj hj
+  apply boxSum_near
+  intro vi hi
+  have hlj : vj.length = D := by rw [hj.length, hd1]
+  have e1 : (vj ++ vi).drop D = vi := by rw [← hlj]; simp
+  have e2 : (vj ++ vi).take D = vj := by rw [← hlj]; simp
+  simp only [dvss2, e1, e2]
+  exact tpLeaf_near_blockLeaf σ g.entityType g.aShape _ ms qvs vi vj dims0 dims1 k hi hj ε M Φ hε hM hΦ0
+    g.blocks fws hsh htp hΦ
+
+end Eps
+
+/-! ### the general case: the diagonal kernel keeps only the coincident blocks -/
+
+theorem lsum_filter_split {β : Type} (f : β → R) (p : β → Bool) : ∀ l : List β,
+    IR.lsum f l = IR.lsum f (l.filter p) + IR.lsum f (l.filter (fun y => !p y))
+  | [] => by simp; grind
+  | y :: l => by
+    by_cases h : p y = true
+    · simp [List.filter, h, lsum_filter_split f p l]; grind
+    · have h' : p y = false := by simpa using h
+      simp [List.filter, h', lsum_filter_split f p l]; grind
+
+/-- the full kernel's entry `(I, J)` as a sum over blocks of extended table values -/
+theorem blockSum_ext (g : GroupDesc) (e0 e1 n0 n1 I J : Nat) (hI : I < e0) (hJ : J < e1)
+    (hS : g.aShape = [e0, e1]) (hL : g.bmLens = [n0, n1]) (fws : List Expr)
+    (hl : g.blocks.length = fws.length) (hargs : ∀ b ∈ g.blocks, ∃ a0 a1, b.args = [a0, a1])
+    (σ : St R) (q : Int) :
+    blockSum x g fws σ q (I * e1 + J) =
+      IR.lsum (fun p : BlockData × Expr =>
+        eval x σ p.2 * extProd σ g.entityType q p.1.args [n0, n1] [(I : Int), (J : Int)]) (g.blocks.zip fws) := by
+  simp only [blockSum, hL, hS, dofSum]
+  have : ∀ i j : Int, blockLeafL x σ g.entityType [e0, e1] [n0, n1] q [i, j] (I * e1 + J) g.blocks fws =
+      blockLeafΦ (eval x σ) σ g.entityType [e0, e1] [n0, n1] q [i, j] (I * e1 + J) g.blocks fws :=
+    fun i j => blockLeafL_eq x (eval x σ) σ σ _ _ _ q _ _ g.blocks fws (fun _ _ => rfl) (fun _ _ => rfl)
+  simp only [this]
+  exact blockLeafΦ_ext2 (eval x σ) σ g.entityType e0 e1 n0 n1 I J hI hJ q g.blocks fws hl hargs
+
+/-- a block whose two block maps are disjoint contributes nothing to a diagonal entry -/
+theorem extProd_disjoint (σ : St R) (et : String) (q : Int) (a0 a1 : ArgDesc) (n0 n1 : Nat) (k : Int)
+    (hdis : ∀ i j : Int, 0 ≤ i → i < n0 → 0 ≤ j → j < n1 → aCoord a0 n0 i ≠ aCoord a1 n1 j) :
+    extProd σ et q [a0, a1] [n0, n1] [k, k] = 0 := by
+  have h := isum_prod n0 n1 (fun i => aCoord a0 n0 i = k) (fun j => aCoord a1 n1 j = k) (1 : R)
+    (fun i => argVal σ et q a0 i) (fun j => argVal σ et q a1 j)
+  have hz : isum 0 n1 (fun j => isum 0 n0 (fun i =>
+      if aCoord a0 n0 i = k ∧ aCoord a1 n1 j = k then (1 : R) * (argVal σ et q a0 i * (argVal σ et q a1 j * 1))
+      else 0)) = 0 := by
+    refine (isum_congr n1 0 ?_).trans (isum_zero n1 0)
+    intro j hj0 hj1
+    refine (isum_congr n0 0 ?_).trans (isum_zero n0 0)
+    intro i hi0 hi1
+    split
+    · rename_i hc; exact absurd (hc.1.trans hc.2.symm) (hdis i j hi0 (by omega) hj0 (by omega))
+    · rfl
+  rw [hz] at h
+  simp only [extProd, extVal]
+  grind
+
+/-- a block with coincident injective block maps contributes its diagonal `Σ_d [c d = k] T0(d)·T1(d)` -/
+theorem extProd_coincident (σ : St R) (et : String) (q : Int) (a0 a1 : ArgDesc) (n : Nat) (k : Int)
+    (hcc : ∀ d, aCoord a1 n d = aCoord a0 n d) (hinj : ∀ i j, aCoord a0 n i = aCoord a0 n j → i = j) :
+    extProd σ et q [a0, a1] [n, n] [k, k] =
+      isum 0 n (fun d => if aCoord a0 n d = k then argVal σ et q a0 d * argVal σ et q a1 d else 0) := by
+  have h := isum_prod n n (fun i => aCoord a0 n i = k) (fun j => aCoord a0 n j = k) (1 : R)
+    (fun i => argVal σ et q a0 i) (fun j => argVal σ et q a1 j)
+  have hc := isum_diag_collapse (R := R) n (aCoord a0 n) hinj k
+    (fun i j => (1 : R) * (argVal σ et q a0 i * (argVal σ et q a1 j * 1)))
+  rw [hc] at h
+  simp only [extProd, extVal, hcc]
+  have : isum 0 n (fun d => if aCoord a0 n d = k then argVal σ et q a0 d * argVal σ et q a1 d else 0) =
+      isum 0 n (fun d => if aCoord a0 n d = k then (1 : R) * (argVal σ et q a0 d * (argVal σ et q a1 d * 1)) else 0) := by
+    apply isum_congr; intro d _ _; split <;> grind
+  rw [this, h]; grind
+
+/-- the diagonal kernel's entry `k` as a sum over its blocks -/
+theorem diagSum_ext (g : GroupDesc) (e0 n : Nat) (k : Nat) (hk : k < e0) (hS : g.aShape = [e0])
+    (hL : g.bmLens = [n, n]) (σ : St R) (q : Int) : ∀ (bs : List BlockData) (fws : List Expr),
+    isum 0 n (fun d => diagLeafL x σ g.entityType [e0] n q d k bs fws) =
+      IR.lsum (fun p : BlockData × Expr => match p.1.args with
+        | [a0, a1] => eval x σ p.2 * isum 0 n (fun d =>
+            if aCoord a0 n d = (k : Int) then argVal σ g.entityType q a0 d * argVal σ g.entityType q a1 d else 0)
+        | _ => 0) (bs.zip fws)
+  | [], _ => by simp only [diagLeafL, List.zip_nil_left, IR.lsum_nil]; exact isum_zero n 0
+  | _ :: _, [] => by simp only [diagLeafL, List.zip_nil_right, IR.lsum_nil]; exact isum_zero n 0
+  | b :: bs, fw :: fws => by
+    simp only [diagLeafL, List.zip_cons_cons, IR.lsum_cons]
+    rw [isum_add, diagSum_ext g e0 n k hk hS hL σ q bs fws]
+    congr 1
+    rcases hb : b.args with _ | ⟨a0, _ | ⟨a1, _ | ⟨a2, r⟩⟩⟩
+    · simp only []; exact isum_zero n 0
+    · simp only []; exact isum_zero n 0
+    · simp only []
+      rw [← isum_mul_left]
+      apply isum_congr; intro d _ _
+      simp only [flatIdx_one_iff e0 k hk]
+      split <;> grind
+    · simp only []; exact isum_zero n 0
+
+/-- **diagonal_of_full_filtered.** The general statement behind `part = 'diagonal'` (mixed / blocked
+    spaces): let `gF` be a rank-2 group of the full kernel (`A` of shape `e0 × e0`, blocks `n × n`) with
+    injective block maps, `fwsF` its `fw` expressions.  The diagonal kernel keeps exactly the blocks with
+    `blockmap[0] == blockmap[1]` (`coincidentBlock`).  If every dropped block has DISJOINT block maps
+    (`disjointMapsB`, decidable), then the diagonal entry `(k, k)` of what the full kernel adds equals what
+    the diagonal kernel's group — the coincident blocks with their `fw` expressions — adds to `A[k]`. -/
+theorem diagonal_of_full_filtered (gF gD : GroupDesc) (n e0 : Nat)
+    (het : gD.entityType = gF.entityType)
+    (hLF : gF.bmLens = [n, n]) (hLD : gD.bmLens = [n, n])
+    (hSF : gF.aShape = [e0, e0]) (hSD : gD.aShape = [e0])
+    (fwsF fwsD : List Expr) (hl : gF.blocks.length = fwsF.length)
+    (hD : gD.blocks.zip fwsD = (gF.blocks.zip fwsF).filter (fun p => coincidentBlock p.1))
+    (hargs : ∀ b ∈ gF.blocks, ∃ a0 a1, b.args = [a0, a1])
+    (hinj : injectiveBlocks gF = true)
+    (hdis : ∀ b ∈ gF.blocks, coincidentBlock b = false → disjointMapsB n n b = true)
+    (σ : St R) (q : Int) (k : Nat) (hk : k < e0) :
+    diagSum x gD fwsD σ q k = blockSum x gF fwsF σ q (k * e0 + k) := by
+  rw [blockSum_ext x gF e0 e0 n n k k hk hk hSF hLF fwsF hl hargs σ q]
+  simp only [diagSum, hLD, hSD]
+  rw [diagSum_ext x gD e0 n k hk hSD hLD σ q gD.blocks fwsD, hD, het,
+    lsum_filter_split _ (fun p : BlockData × Expr => coincidentBlock p.1) (gF.blocks.zip fwsF)]
+  simp only [injectiveBlocks, List.all_eq_true, decide_eq_true_eq] at hinj
+  have hrest : IR.lsum (fun p : BlockData × Expr =>
+      eval x σ p.2 * extProd σ gF.entityType q p.1.args [n, n] [(k : Int), (k : Int)])
+      ((gF.blocks.zip fwsF).filter (fun y => !coincidentBlock y.1)) = 0 := by
+    rw [← IR.lsum_zero ((gF.blocks.zip fwsF).filter (fun y => !coincidentBlock y.1))]
+    apply IR.lsum_congr
+    intro p hp
+    obtain ⟨hpm, hpc⟩ := List.mem_filter.mp hp
+    have hb : p.1 ∈ gF.blocks := (List.of_mem_zip hpm).1
+    obtain ⟨a0, a1, ha⟩ := hargs p.1 hb
+    have hd := hdis p.1 hb (by simpa using hpc)
+    simp only [disjointMapsB, ha, List.all_eq_true, List.mem_range, bne_iff_ne, ne_eq] at hd
+    rw [ha, extProd_disjoint σ gF.entityType q a0 a1 n n k ?_]
+    · grind
+    · intro i j hi0 hi1 hj0 hj1
+      have := hd i.toNat (by omega) j.toNat (by omega)
+      simp only [Int.toNat_of_nonneg hi0, Int.toNat_of_nonneg hj0] at this
+      simpa [aCoord] using this
+  rw [hrest]
+  have hco : IR.lsum (fun p : BlockData × Expr => match p.1.args with
+        | [a0, a1] => eval x σ p.2 * isum 0 n (fun d =>
+            if aCoord a0 n d = (k : Int) then argVal σ gF.entityType q a0 d * argVal σ gF.entityType q a1 d else 0)
+        | _ => 0) ((gF.blocks.zip fwsF).filter (fun p => coincidentBlock p.1)) =
+      IR.lsum (fun p : BlockData × Expr =>
+        eval x σ p.2 * extProd σ gF.entityType q p.1.args [n, n] [(k : Int), (k : Int)])
+        ((gF.blocks.zip fwsF).filter (fun p => coincidentBlock p.1)) := by
+    apply IR.lsum_congr
+    intro p hp
+    obtain ⟨hpm, hpc⟩ := List.mem_filter.mp hp
+    have hb : p.1 ∈ gF.blocks := (List.of_mem_zip hpm).1
+    obtain ⟨a0, a1, ha⟩ := hargs p.1 hb
+    simp only [coincidentBlock, ha, Bool.and_eq_true, beq_iff_eq] at hpc
+    obtain ⟨⟨ho, hbs⟩, _⟩ := hpc
+    have hb0 : 1 ≤ a0.table.blockSize := hinj p.1 hb a0 (by simp [ha])
+    simp only [ha]
+    rw [extProd_coincident σ gF.entityType q a0 a1 n k (fun d => by simp [aCoord, ho, hbs])
+      (fun i j h => aCoord_inj a0 n hb0 i j h)]
+  rw [hco]; grind
+
+/-! ### the Boolean check the driver evaluates ⇒ the hypotheses of `genBlock_tensor_spec` -/
+
+theorem famSymsB_eq (nm : String) (D : Nat) : famSymsB nm D = famSyms nm D := rfl
+
+/-- the part of `tensorGroupB` about one block -/
+theorem tensorBlock_sound (g : GroupDesc) (D : Nat) (dims : List (List Nat)) (b : BlockData)
+    (h : ((b.args.map tfDims == dims) = true ∧
+      ∀ x ∈ b.args, ((match x.table.factors with | some fs => fs.length == D | none => false) = true ∧
+          (x.table.ndofs == (tfDims x).foldr (fun x1 x2 => x1 * x2) 1) = true) ∧
+        ∀ x_1 ∈ x.table.factors.getD [], (x_1.fst != aName) = true) ∧
+      coversB b.args g.bmLens g.aShape = true) :
+    b.args.map (fun a => a.fs.map (·.2)) = dims ∧ AllTF D b.args ∧ TPDims b.args ∧
+      coversB b.args g.bmLens g.aShape = true ∧ ∀ a ∈ b.args, ∀ f' ∈ a.fs, f'.1 ≠ aName := by
+  obtain ⟨⟨h1, h2⟩, h3⟩ := h
+  simp only [beq_iff_eq] at h1
+  refine ⟨h1, ?_, ?_, h3, ?_⟩
+  · intro a ha
+    have := (h2 a ha).1.1
+    cases hf : a.table.factors with
+    | none => simp [hf] at this
+    | some fs => simp only [hf, beq_iff_eq] at this; exact ⟨fs, rfl, this⟩
+  · intro a ha
+    have := (h2 a ha).1.2
+    simpa [tfDims, ArgDesc.fs, sizeProd] using this
+  · intro a ha f' hf'
+    simpa using (h2 a ha).2 f' hf'
+
+/-- **tensorGroupB_sound** (rank 2): `tensorGroupB g st = true` — evaluated by `driver_codegen` on every
+    real sum-factorised group — yields every structural hypothesis of `genBlock_tensor_spec`. -/
+theorem tensorGroupB_sound (g : GroupDesc) (st : GenState) (h : tensorGroupB g st = true)
+    (hr : g.bmLens.length = 2) :
+    ∃ (ms : List Nat) (D : Nat) (dims0 dims1 : List Nat),
+      g.diagonal = false ∧ g.rule.factors = some ms ∧ ms.length = D ∧ 2 ≤ D ∧ FamNamesOk D ∧
+      (∀ b ∈ g.blocks, TpBlock2 g D dims0 dims1 b) ∧ (∀ d ∈ dims1 ++ dims0, 1 ≤ d) ∧
+      (∀ fw ∈ fwExprs g st g.blocks, mentionsE aName fw = false ∧
+        ∀ n, mentionsE n fw = true → n ∉ allFamSyms D) := by
+  simp only [tensorGroupB, Bool.and_eq_true, Bool.not_eq_true'] at h
+  obtain ⟨hdiag, h⟩ := h
+  cases hms : g.rule.factors with
+  | none => simp [hms] at h
+  | some ms =>
+    rcases hbl : g.blocks with _ | ⟨b0, bs⟩
+    · simp [hms, hbl] at h
+    · simp only [hms, hbl, Bool.and_eq_true, decide_eq_true_eq, List.all_eq_true, Bool.not_eq_true',
+        famSymsB_eq] at h
+      obtain ⟨⟨⟨⟨⟨⟨⟨⟨hD, _⟩, hpos⟩, hblk⟩, hnd⟩, hiq⟩, haiq⟩, hafam⟩, hfw⟩ := h
+      -- the dimensions come from the first block, which has two arguments
+      have hb0 := tensorBlock_sound g ms.length (b0.args.map tfDims) b0 (hblk b0 (by simp))
+      have hcov0 := hb0.2.2.2.1
+      rcases hL : g.bmLens with _ | ⟨n0, _ | ⟨n1, _ | ⟨n2, r⟩⟩⟩ <;> simp [hL] at hr
+      rcases ha0 : b0.args with _ | ⟨a0, _ | ⟨a1, _ | ⟨a2, r⟩⟩⟩ <;>
+        (try (rcases hS : g.aShape with _ | ⟨e0, _ | ⟨e1, _ | ⟨e2, r'⟩⟩⟩ <;> simp [ha0, hL, hS, coversB] at hcov0))
+      refine ⟨ms, ms.length, a0.fs.map (·.2), a1.fs.map (·.2), hdiag, rfl, rfl, hD, ?_, ?_, ?_, ?_⟩
+      · refine ⟨of_decide_eq_true hnd, ?_, ?_, ?_⟩
+        · intro s hs
+          have := hiq s hs
+          simpa [List.contains_eq_mem] using this
+        · simpa [List.contains_eq_mem] using haiq
+        · intro nm hnm hin
+          have : aName ∈ (dofNames.map (fun nm => famSyms nm ms.length)).flatten :=
+            List.mem_flatten.mpr ⟨_, List.mem_map.mpr ⟨nm, hnm, rfl⟩, hin⟩
+          have hc := hafam
+          simp only [List.contains_eq_mem, decide_eq_false_iff_not] at hc
+          exact hc (by simpa [famSymsB_eq] using this)
+      · intro b hb
+        obtain ⟨e1, e2, e3, e4, e5⟩ := tensorBlock_sound g ms.length (b0.args.map tfDims) b (hblk b hb)
+        refine ⟨?_, e2, e3, e4, e5⟩
+        rw [ha0] at e1
+        rcases hab : b.args with _ | ⟨c0, _ | ⟨c1, _ | ⟨c2, r⟩⟩⟩ <;> simp [hab, tfDims, ArgDesc.fs] at e1
+        exact ⟨c0, c1, rfl, by simpa [ArgDesc.fs] using e1.1, by simpa [ArgDesc.fs] using e1.2⟩
+      · intro d hd
+        have : d ∈ (b0.args.map tfDims).flatten := by
+          rw [ha0]
+          simp only [List.map_cons, List.map_nil, List.flatten_cons, List.flatten_nil, List.append_nil,
+            List.mem_append] at hd ⊢
+          rcases hd with hd | hd
+          · exact Or.inr (by simpa [tfDims, ArgDesc.fs] using hd)
+          · exact Or.inl (by simpa [tfDims, ArgDesc.fs] using hd)
+        exact hpos d this
+      · intro fw hfwm
+        have := hfw fw hfwm
+        refine ⟨this.1, ?_⟩
+        intro n hn hin
+        have h2 := this.2 n (by simpa [allFamSyms, famSymsB_eq] using hin)
+        simp [h2] at hn
+
 /-! ## Non-vacuity -/
 
 namespace C10Example
@@ -763,6 +1199,121 @@ example : (List.range 3).map (diagSum ratExtra gD [.sym "fw0" .scalar] σD 1) =
     (List.range 3).map (fun k => blockSum ratExtra gF [.sym "fw0" .scalar] σD 1 (k * 3 + k)) =
     [5 * 4 * 10, 5 * 5 * 11, 5 * 6 * 12] := by decide +kernel
 
+theorem lawfulRat : LawfulExtra (R := Rat) ratExtra := ⟨rfl, rfl, fun _ _ => by simp [ratExtra]⟩
+
+def outD : List Stmt × List Stmt × GenState :=
+  match genBlockParts gD {} with | .ok r => r | .error _ => ([], [], {})
+
+theorem argOkD (name : String) (vals : List Rat) (h : σD.sa.get name = some (arr [1, 1, 2, 3] vals)) :
+    ArgOk σD "cell" 1 { table := tab name 3 none, restriction := .none } := by
+  refine Or.inr ⟨.litI 0, 0, 0, arr [1, 1, 2, 3] vals, rfl, rfl, rfl, h, ?_⟩
+  intro d hd
+  have hp : (tab name 3 none).isPiecewise = false := rfl
+  simp only [hp, arr]
+  match d, hd with
+  | 0, _ => rfl
+  | 1, _ => rfl
+  | 2, _ => rfl
+  | n + 3, h => exact absurd h (by simp [tab])
+
+/-- **`genBlock_diagonal_spec` applied**: all its hypotheses hold for `gD`, `σD`, `q = 1` -/
+example : ∃ σ', execL ratExtra outD.1 σD = .ok σ' ∧
+    Acc aName (fun n => n ∈ dofNames) (fun _ => False)
+      (diagSum ratExtra gD (fwExprs gD {} gD.blocks) σD 1) σD σ' := by
+  have hgen : genBlockParts gD {} = .ok (outD.1, outD.2.1, outD.2.2) := by
+    unfold outD
+    cases h : genBlockParts gD {} with
+    | ok r => rfl
+    | error e =>
+      have : (match genBlockParts gD {} with | .ok _ => true | .error _ => false) = true := by decide
+      simp [h] at this
+  refine genBlock_diagonal_spec ratExtra lawfulRat gD {} _ _ _ hgen (by decide) (by decide) σD 1 rfl
+    ⟨arr [3] [0, 0, 0], rfl, rfl, rfl, rfl⟩ ?_ ?_
+  · intro b hb a ha
+    simp only [gD, List.mem_singleton] at hb
+    subst hb
+    simp only [List.mem_cons, List.mem_nil_iff, or_false] at ha
+    rcases ha with rfl | rfl
+    · exact argOkD "FE0" [1, 2, 3, 4, 5, 6] rfl
+    · exact argOkD "FE1" [7, 8, 9, 10, 11, 12] rfl
+  · intro fw hfw
+    have : fwExprs gD {} gD.blocks = [.sym "fw0" .scalar] := by rfl
+    rw [this] at hfw
+    simp only [List.mem_singleton] at hfw
+    subst hfw
+    decide
+
+/-! ### `part = diagonal` on blocked / mixed spaces: `diagonal_of_full_filtered` and its limit -/
+
+def tabO (name : String) (off : Int) : TableRef :=
+  { name := name, ttype := "varying", ndofs := 2, offset := off, blockSize := 2, isPermuted := false,
+    factors := none }
+
+def blkM (n0 n1 : String) (o0 o1 : Int) (fi : Nat) : BlockData :=
+  { ttypes := ["varying", "varying"],
+    args := [{ table := tabO n0 o0, restriction := .none }, { table := tabO n1 o1, restriction := .none }],
+    nFactorComps := 1, factorIndex := fi, allFactorsPiecewise := false, transposed := false,
+    f := .sym "sv_ab12cd34_3" .scalar }
+
+/-- a vector-P1-like full group: the four blocks (component r of the test function) × (component c of the
+    trial function), dofs `2·d + r`; `A` is `4 × 4` -/
+def gMF : GroupDesc :=
+  { rule := { id := "ab12cd34", nweights := 2, factors := none }, custom := false, entityType := "cell",
+    diagonal := false, aShape := [4, 4], bmLens := [2, 2],
+    blocks := [blkM "FE0" "FE0" 0 0 7, blkM "FE0" "FE1" 0 1 8, blkM "FE1" "FE0" 1 0 8, blkM "FE1" "FE1" 1 1 9] }
+
+/-- what `part = diagonal` generates from it: the coincident blocks only -/
+def gMD : GroupDesc := { gMF with diagonal := true, aShape := [4], blocks := gMF.blocks.filter coincidentBlock }
+
+def fwsM : List Expr := [.sym "fw0" .scalar, .sym "fw1" .scalar, .sym "fw1" .scalar, .sym "fw2" .scalar]
+
+def σM : St Rat :=
+  { iv := [("iq", 1)], sv := [("fw0", 5), ("fw1", 7), ("fw2", 11)],
+    sa := [("A", arr [4] [0, 0, 0, 0]),
+           ("FE0", arr [1, 1, 2, 2] [1, 2, 3, 4]), ("FE1", arr [1, 1, 2, 2] [7, 8, 9, 10])] }
+
+example : diagonalPairB gMF gMD = true ∧ injectiveBlocks gMF = true ∧ coincidentMaps gMF = false := by decide
+
+/-- `diagonal_of_full_filtered` applied: for every `k < 4` the diagonal kernel's `A[k]` contribution is the
+    `(k, k)` entry of the full kernel's (the two dropped blocks have disjoint block maps) -/
+example : ∀ k, k < 4 → diagSum ratExtra gMD
+      (((gMF.blocks.zip fwsM).filter (fun p => coincidentBlock p.1)).map (·.2)) σM 1 k =
+    blockSum ratExtra gMF fwsM σM 1 (k * 4 + k) := by
+  intro k hk
+  refine diagonal_of_full_filtered ratExtra gMF gMD 2 4 rfl rfl rfl rfl rfl fwsM _ rfl ?_ ?_ (by decide) ?_ σM 1 k hk
+  · rfl
+  · intro b hb
+    simp only [gMF, List.mem_cons, List.mem_nil_iff, or_false] at hb
+    rcases hb with rfl | rfl | rfl | rfl <;> exact ⟨_, _, rfl⟩
+  · intro b hb hc
+    simp only [gMF, List.mem_cons, List.mem_nil_iff, or_false] at hb
+    rcases hb with rfl | rfl | rfl | rfl <;> first | (exact absurd hc (by decide)) | decide
+
+/-- the numbers: `A[k] += fw·FE_r[1][d]²` for `k = 2d + r` -/
+example : (List.range 4).map (fun k => blockSum ratExtra gMF fwsM σM 1 (k * 4 + k)) =
+    [5 * 3 * 3, 11 * 9 * 9, 5 * 4 * 4, 11 * 10 * 10] := by decide +kernel
+
+/-- **diagonal_filter_overlap_counterexample.** The disjointness hypothesis of
+    `diagonal_of_full_filtered` cannot be dropped: a block whose block maps overlap without being equal
+    (test dofs `{0, 1}`, trial dofs `{1, 2}`) is NOT coincident, so `part = diagonal` drops it, but it
+    contributes `fw·T0[q][1]·T1[q][0]` to the diagonal entry `(1, 1)` of the full tensor.  (No such block was
+    found in real kernels: the block maps of FFCx come from sub-elements / components / restrictions and are
+    equal or disjoint — checked per real full/diagonal pair by `diagonalPairB`.) -/
+theorem diagonal_filter_overlap_counterexample :
+    let blk : BlockData :=
+      { ttypes := ["varying", "varying"],
+        args := [{ table := { tabO "FE0" 0 with blockSize := 1 }, restriction := .none },
+                 { table := { tabO "FE1" 1 with blockSize := 1 }, restriction := .none }],
+        nFactorComps := 1, factorIndex := 7, allFactorsPiecewise := false, transposed := false,
+        f := .sym "sv_ab12cd34_3" .scalar }
+    let gF : GroupDesc :=
+      { rule := { id := "ab12cd34", nweights := 2, factors := none }, custom := false, entityType := "cell",
+        diagonal := false, aShape := [3, 3], bmLens := [2, 2], blocks := [blk] }
+    let gD : GroupDesc := { gF with diagonal := true, aShape := [3], blocks := gF.blocks.filter coincidentBlock }
+    coincidentBlock blk = false ∧ disjointMapsB 2 2 blk = false ∧ injectiveBlocks gF = true ∧
+    blockSum ratExtra gF [.sym "fw0" .scalar] σM 1 (1 * 3 + 1) = 5 * 4 * 9 ∧
+    diagSum ratExtra gD [] σM 1 1 = 0 := by decide +kernel
+
 /-- a sum-factorised group: rule `2 × 2` points, tables `2 × 2` dofs with factor tables `TFa`, `TFb` -/
 def gT : GroupDesc :=
   { rule := { id := "ab12cd34", nweights := 4, factors := some [2, 2] }, custom := false,
@@ -799,6 +1350,123 @@ example : (match genBlockParts gT {} with
     some ((List.range 16).map (tensorSum2 ratExtra gT 2 [2, 2] [2, 2] [.sym "fw0" .scalar] σT [1, 0])) ∧
     (List.range 16).map (tensorSum2 ratExtra gT 2 [2, 2] [2, 2] [.sym "fw0" .scalar] σT [1, 0]) =
     (List.range 16).map (blockSum ratExtra gT [.sym "fw0" .scalar] σT 2) := by decide +kernel
+
+def outT : List Stmt × List Stmt × GenState :=
+  match genBlockParts gT {} with | .ok r => r | .error _ => ([], [], {})
+
+theorem tfOkT (n1 n2 : String) (v1 v2 : List Rat) (h1 : σT.sa.get n1 = some (arr [1, 1, 2, 2] v1))
+    (h2 : σT.sa.get n2 = some (arr [1, 1, 2, 2] v2)) :
+    TfOk σT 0 0 [(n1, 2), (n2, 2)] [1, 0] := by
+  refine ⟨⟨_, h1, ?_⟩, ⟨_, h2, ?_⟩, trivial⟩ <;>
+  · intro v hv
+    match v, hv with
+    | 0, _ => rfl
+    | 1, _ => rfl
+    | n + 2, h => exact absurd h (by omega)
+
+/-- **`genBlock_tensor_spec` applied** (`TpBlock2`, `TpArgOk` instantiated): all its hypotheses hold for the
+    sum-factorised group `gT`, the state `σT`, the quadrature point `(iq0, iq1) = (1, 0)` -/
+example : ∃ σ', execL ratExtra outT.1 σT = .ok σ' ∧
+    Acc aName (fun n => n ∈ famSyms "j" 2 ++ famSyms "i" 2) (fun _ => False)
+      (tensorSum2 ratExtra gT 2 [2, 2] [2, 2] (fwExprs gT {} gT.blocks) σT [1, 0]) σT σ' := by
+  have hgen : genBlockParts gT {} = .ok (outT.1, outT.2.1, outT.2.2) := by
+    unfold outT
+    cases h : genBlockParts gT {} with
+    | ok r => rfl
+    | error e =>
+      have : (match genBlockParts gT {} with | .ok _ => true | .error _ => false) = true := by decide +kernel
+      simp [h] at this
+  have hfws : fwExprs gT {} gT.blocks = [.sym "fw0" .scalar] := by rfl
+  refine genBlock_tensor_spec ratExtra lawfulRat gT {} _ _ _ hgen 2 (by decide) famNamesOk_2 [2, 2] rfl rfl rfl
+    [2, 2] [2, 2] ?_ (by decide) ?_ σT [1, 0] ⟨rfl, rfl, trivial⟩
+    ⟨arr [16] (List.replicate 16 0), rfl, rfl, rfl, rfl⟩ ?_ ?_
+  · intro b hb
+    simp only [gT, List.mem_singleton] at hb
+    subst hb
+    refine ⟨⟨_, _, rfl, rfl, rfl⟩, ?_, ?_, by decide, ?_⟩
+    · intro a ha
+      simp only [List.mem_cons, List.mem_nil_iff, or_false] at ha
+      rcases ha with rfl | rfl <;> exact ⟨_, rfl, rfl⟩
+    · intro a ha
+      simp only [List.mem_cons, List.mem_nil_iff, or_false] at ha
+      rcases ha with rfl | rfl <;> rfl
+    · intro a ha f' hf'
+      simp only [List.mem_cons, List.mem_nil_iff, or_false] at ha
+      rcases ha with rfl | rfl <;>
+        (simp only [ArgDesc.fs, tab, Option.getD, List.mem_cons, List.mem_nil_iff, or_false] at hf'
+         rcases hf' with rfl | rfl <;> decide)
+  · intro fw hfw
+    rw [hfws] at hfw
+    simp only [List.mem_singleton] at hfw
+    subst hfw
+    refine ⟨by decide, ?_⟩
+    intro n hn
+    have : "fw0" = n := by simpa [mentionsE] using hn
+    subst this
+    decide
+  · intro b hb a ha
+    simp only [gT, List.mem_singleton] at hb
+    subst hb
+    simp only [List.mem_cons, List.mem_nil_iff, or_false] at ha
+    rcases ha with rfl | rfl
+    · exact Or.inr ⟨.litI 0, 0, 0, rfl, rfl, rfl, tfOkT "TFa" "TFb" _ _ rfl rfl⟩
+    · exact Or.inr ⟨.litI 0, 0, 0, rfl, rfl, rfl, tfOkT "TFb" "TFa" _ _ rfl rfl⟩
+  · intro fw hfw
+    rw [hfws] at hfw
+    simp only [List.mem_singleton] at hfw
+    subst hfw
+    decide
+
+/-- `tensorGroupB_sound` applies to `gT` -/
+example : ∃ (ms : List Nat) (D : Nat) (dims0 dims1 : List Nat), gT.rule.factors = some ms ∧ ms.length = D ∧
+    ∀ b ∈ gT.blocks, TpBlock2 gT D dims0 dims1 b := by
+  obtain ⟨ms, D, d0, d1, _, h2, h3, _, _, h6, _⟩ := tensorGroupB_sound gT {} (by decide) rfl
+  exact ⟨ms, D, d0, d1, h2, h3, h6⟩
+
+/-! `tensor_near_full` applied: the full table `FE0` is the tensor product of its factor tables only up to
+    `1/1000` (one entry perturbed) -/
+
+def σTε : St Rat :=
+  { σT with sa := [("A", arr [16] (List.replicate 16 0)),
+           ("TFa", arr [1, 1, 2, 2] [1, 2, 3, 4]), ("TFb", arr [1, 1, 2, 2] [10, 11, 12, 13]),
+           ("FE0", arr [1, 1, 4, 4] ((List.range 16).map (fun n =>
+              ([1, 2, 3, 4].getD (2 * (n / 4 / 2) + n % 4 / 2) 0 : Rat) *
+                [10, 11, 12, 13].getD (2 * (n / 4 % 2) + n % 4 % 2) 0 + (if n = 8 then 1 / 1000 else 0)))),
+           ("FE1", arr [1, 1, 4, 4] ((List.range 16).map (fun n =>
+              ([10, 11, 12, 13].getD (2 * (n / 4 / 2) + n % 4 / 2) 0 : Rat) *
+                [1, 2, 3, 4].getD (2 * (n / 4 % 2) + n % 4 % 2) 0)))] }
+
+theorem inBox22 (dvs : List Int) (h : InBox [2, 2] dvs) :
+    dvs = [0, 0] ∨ dvs = [0, 1] ∨ dvs = [1, 0] ∨ dvs = [1, 1] := by
+  match dvs, h with
+  | [a, b], ⟨⟨a0, a1⟩, ⟨b0, b1⟩, _⟩ =>
+    have ha : a = 0 ∨ a = 1 := by omega
+    have hb : b = 0 ∨ b = 1 := by omega
+    rcases ha with rfl | rfl <;> rcases hb with rfl | rfl <;> simp
+
+example : ∀ k, (tensorSum2 ratExtra gT 2 [2, 2] [2, 2] [.sym "fw0" .scalar] σTε [1, 0] k -
+      blockSum ratExtra gT [.sym "fw0" .scalar] σTε (dotStrides (strides [2, 2]) [1, 0]) k).abs ≤
+    boxCount [2, 2] * (boxCount [2, 2] * (cnt gT.blocks.length * (3 * (1 / 1000 * (2 * 44 + 1 / 1000))))) := by
+  intro k
+  refine tensor_near_full gT 2 [2, 2] [2, 2] [2, 2] rfl rfl ?_ _ σTε [1, 0] (1 / 1000) 44 3 (by decide +kernel)
+    (by decide +kernel) (by decide +kernel) ?_ ?_ k
+  · intro b hb
+    simp only [gT, List.mem_singleton] at hb
+    subst hb
+    exact ⟨_, _, rfl, rfl, rfl⟩
+  · intro b hb a ha dvs hd
+    simp only [gT, List.mem_singleton] at hb
+    subst hb
+    simp only [List.mem_cons, List.mem_nil_iff, or_false] at ha
+    rcases ha with rfl | rfl <;> rcases inBox22 dvs hd with rfl | rfl | rfl | rfl <;> decide +kernel
+  · intro fw hfw
+    simp only [List.mem_singleton] at hfw
+    subst hfw
+    decide +kernel
+
+/-- … and the two kernels really differ there (entry `k = 0`: by `fw·(1/1000)·T1 = 3·(1/1000)·12`) -/
+example : tensorSum2 ratExtra gT 2 [2, 2] [2, 2] [.sym "fw0" .scalar] σTε [1, 0] 0 -
+    blockSum ratExtra gT [.sym "fw0" .scalar] σTε 2 0 = -(3 * (1 / 1000) * 12) := by decide +kernel
 
 end C10Example
 
